@@ -22,8 +22,8 @@ Definition policy_text (rule : string) (cli ini : option string) (dflt : string)
 (* a per-path rule speaks for exactly the node it was resolved to: same
    object, same parent object, same key / index *)
 Definition same_place (a b : coord) : Prop :=
-  c_node a = c_node b /\ c_parent a = c_parent b /\
-  match c_ref a, c_ref b with
+  mc_node a = mc_node b /\ mc_parent a = mc_parent b /\
+  match mc_ref a, mc_ref b with
   | None, None => True
   | Some x, Some y => py_eq x y = true
   | _, _ => False
